@@ -5,10 +5,16 @@
 package c43
 
 import (
+	"context"
 	"encoding/json"
+	"errors"
 	"fmt"
+	"os"
+	"os/exec"
 	"reflect"
+	"runtime/debug"
 	"strings"
+	"time"
 
 	"github.com/sarchlab/akita/v5/mem/vm/lruset"
 	"github.com/sarchlab/akita/v5/modeling"
@@ -145,7 +151,52 @@ type HandContainers struct {
 	N    int                     `json:"n"`
 }
 
+// Recursive types: reachable from themselves through a slice, a map, an array of slices,
+// or mutually.  The validator's walk must terminate on them (it rejects them).
+type HandRecSlice struct {
+	V    int
+	Kids []HandRecSlice
+}
+
+type HandRecMap struct {
+	V    int
+	Kids map[string]HandRecMap
+}
+
+type HandRecA struct {
+	N  int
+	Bs []HandRecB
+}
+
+type HandRecB struct {
+	S  string
+	As [2][]HandRecA
+}
+
+// isRecursive reports whether a struct type is reachable from itself inside t.
+func isRecursive(t reflect.Type, busy map[reflect.Type]bool) bool {
+	switch t.Kind() {
+	case reflect.Slice, reflect.Array, reflect.Map, reflect.Pointer:
+		return isRecursive(t.Elem(), busy)
+	case reflect.Struct:
+		if busy[t] {
+			return true
+		}
+		busy[t] = true
+		defer delete(busy, t)
+		for i := 0; i < t.NumField(); i++ {
+			if isRecursive(t.Field(i).Type, busy) {
+				return true
+			}
+		}
+	}
+	return false
+}
+
 var hand = map[string]reflect.Type{
+	"HandRecSlice":    reflect.TypeOf(HandRecSlice{}),
+	"HandRecMap":      reflect.TypeOf(HandRecMap{}),
+	"HandRecA":        reflect.TypeOf(HandRecA{}),
 	"EmbA":            reflect.TypeOf(EmbA{}),
 	"EmbB":            reflect.TypeOf(EmbB{}),
 	"HandEmbU":        reflect.TypeOf(HandEmbU{}),
@@ -167,7 +218,7 @@ var hand = map[string]reflect.Type{
 
 var handNames = []string{"EmbA", "EmbB", "HandEmbU", "HandTwoEmb", "HandPair", "HandMarshalOnly",
 	"HandPtrMarshal", "hiddenT", "HandContainers", "Buffer", "Pipeline", "Set", "PtrStruct",
-	"HandPtrHidden", "HandNone", "HandEmbNone", "HandDash"}
+	"HandPtrHidden", "HandNone", "HandEmbNone", "HandDash", "HandRecSlice", "HandRecMap", "HandRecA"}
 
 var scalar = map[string]reflect.Type{
 	"bool": reflect.TypeOf(false), "int": reflect.TypeOf(int(0)), "int8": reflect.TypeOf(int8(0)),
@@ -253,7 +304,7 @@ func build(td TD) (t reflect.Type, err error) {
 // (channels, functions, complex numbers, unusable map keys) ARE round-tripped, so that a
 // validator that starts accepting them yields a concrete failing value.
 func predictable(t reflect.Type, busy map[reflect.Type]bool) bool {
-	if busy[t] {
+	if busy[t] || isRecursive(t, map[reflect.Type]bool{}) {
 		return false
 	}
 	term := jm.TypeTerm(t)
@@ -401,6 +452,76 @@ type obs struct {
 	Vals     []valObs `json:"vals,omitempty"`
 }
 
+func validate(t reflect.Type, state bool) error {
+	zero := reflect.New(t).Elem().Interface()
+	if state {
+		return modeling.ValidateState(zero)
+	}
+	return modeling.ValidateSpec(zero)
+}
+
+// childDeadline bounds the validator's walk over one (small, hand-written) type.
+const childDeadline = 20 * time.Second
+
+//	<self> c43validate <input.json>  -> "accept" | "reject: <error>" on stdout
+func init() {
+	if len(os.Args) > 2 && os.Args[1] == "c43validate" {
+		// a walk that never returns grows one frame and one longer path string per level:
+		// a small stack bound turns it into a prompt "stack overflow" instead of gigabytes
+		debug.SetMaxStack(1 << 20)
+		var in input
+		raw, err := os.ReadFile(os.Args[2])
+		if err == nil {
+			err = json.Unmarshal(raw, &in)
+		}
+		if err != nil {
+			fmt.Println("error: " + err.Error())
+			os.Exit(2)
+		}
+		t, err := build(in.T)
+		if err != nil {
+			fmt.Println("error: " + err.Error())
+			os.Exit(2)
+		}
+		if err := validate(t, in.State); err != nil {
+			fmt.Println("reject: " + err.Error())
+		} else {
+			fmt.Println("accept")
+		}
+		os.Exit(0)
+	}
+}
+
+func validateInChild(raw json.RawMessage) (verr error, failed bool, msg string) {
+	f, err := os.CreateTemp("", "c43in-*.json")
+	if err != nil {
+		return nil, true, "temp file: " + err.Error()
+	}
+	defer os.Remove(f.Name())
+	f.Write(raw)
+	f.Close()
+	ctx, cancel := context.WithTimeout(context.Background(), childDeadline)
+	defer cancel()
+	cmd := exec.CommandContext(ctx, os.Args[0], "c43validate", f.Name())
+	outb, err := cmd.Output()
+	out := strings.TrimSpace(string(outb))
+	switch {
+	case ctx.Err() != nil:
+		return nil, true, fmt.Sprintf("validator did not return within %s (walk over a recursive type)", childDeadline)
+	case err != nil:
+		var ee *exec.ExitError
+		if errors.As(err, &ee) && strings.Contains(string(ee.Stderr), "stack overflow") {
+			return nil, true, "validator overflowed a 1 MiB stack (walk over a recursive type does not terminate)"
+		}
+		return nil, true, "validator process failed: " + err.Error() + " " + out
+	case out == "accept":
+		return nil, false, ""
+	case strings.HasPrefix(out, "reject: "):
+		return errors.New(strings.TrimPrefix(out, "reject: ")), false, ""
+	}
+	return nil, true, "validator process: unexpected output " + out
+}
+
 func run(raw json.RawMessage) (hx.Case, error) {
 	var in input
 	if err := hx.UJ(raw, &in); err != nil {
@@ -414,14 +535,14 @@ func run(raw json.RawMessage) (hx.Case, error) {
 	}
 	var o obs
 	var verr error
-	panicked, msg := hx.Try(func() {
-		zero := reflect.New(t).Elem().Interface()
-		if in.State {
-			verr = modeling.ValidateState(zero)
-		} else {
-			verr = modeling.ValidateSpec(zero)
-		}
-	})
+	var panicked bool
+	var msg string
+	if isRecursive(t, map[reflect.Type]bool{}) {
+		// a walk that does not terminate cannot be caught in-process: fresh process, deadline
+		verr, panicked, msg = validateInChild(raw)
+	} else {
+		panicked, msg = hx.Try(func() { verr = validate(t, in.State) })
+	}
 	o.Accept = !panicked && verr == nil
 	if verr != nil {
 		o.Verdict = verr.Error()
